@@ -11,8 +11,9 @@ import sys
 VERIF = os.path.dirname(os.path.dirname(os.path.abspath(__file__)))
 SD = os.path.join(VERIF, "seeded")
 # outcome of the very first run of the checks against each seed, before any strengthening
-FIRST_MISSED = {"C06-8", "C07-6", "C15-8", "C16-7", "C19-7", "C19-8", "C12-7", "C12-8", "C09-7", "C17-6", "C17-7", "C08-6", "C08-7", "C13-5", "C16-5", "C16-6", "C15-5", "C15-6", "C10-6", "C10-7", "C04-6", "C05-6", "C14-6", "C02-7", "C02-8", "C17-5", "C19-5", "C06-6", "C13-3", "C13-4", "C17-4", "C19-3", "C15-4", "C16-3", "C16-4", "C14-3", "C14-4", "C03-4", "C03-5", "C02-5", "C02-6", "C10-5", "C02-3", "C08-4", "C10-4", "C04-3", "C09-3", "C11-4", "C12-4", "C02-2", "C03-1", "C05-1", "C06-1", "C06-2", "C08-1", "C08-2", "C10-1", "C11-2", "C15-1", "C18-1", "C19-1", "C19-2"}
+FIRST_MISSED = {"C13-6", "C06-8", "C07-6", "C15-8", "C16-7", "C19-7", "C19-8", "C12-7", "C12-8", "C09-7", "C17-6", "C17-7", "C08-6", "C08-7", "C13-5", "C16-5", "C16-6", "C15-5", "C15-6", "C10-6", "C10-7", "C04-6", "C05-6", "C14-6", "C02-7", "C02-8", "C17-5", "C19-5", "C06-6", "C13-3", "C13-4", "C17-4", "C19-3", "C15-4", "C16-3", "C16-4", "C14-3", "C14-4", "C03-4", "C03-5", "C02-5", "C02-6", "C10-5", "C02-3", "C08-4", "C10-4", "C04-3", "C09-3", "C11-4", "C12-4", "C02-2", "C03-1", "C05-1", "C06-1", "C06-2", "C08-1", "C08-2", "C10-1", "C11-2", "C15-1", "C18-1", "C19-1", "C19-2"}
 STRENGTHENED = {
+    "C13-6": "new rule C13-a.whole-chunk-into-codec",
     "C06-8": "new rule C06.keepalive-timeout-yields-deadline",
     "C07-6": "new rule C07-c.h2-end-only-at-stream-end",
     "C15-8": "new rule C15-g.part-headers-all-kept",
